@@ -552,7 +552,7 @@ fn scale_slice(ctx: &mut Ctx) {
 // Fault slice: unreadable directories, binary-level, uid 65534
 // ---------------------------------------------------------------------------------------
 
-fn run_find_as_nobody(args: &[&str], cwd: &std::path::Path) -> FindOut {
+pub fn run_find_as_nobody(args: &[&str], cwd: &std::path::Path) -> FindOut {
     use std::os::unix::process::CommandExt;
     use std::process::{Command, Stdio};
     // uid 65534 may not be able to reach the build directory (e.g. under /root): run a private
